@@ -45,6 +45,10 @@ Lemma kget_mutate_same {V} k (v : V) d : kget k (td_mutate key_eqb k v d) = Some
 Proof. unfold kget, td_mutate. cbn. apply (alist_get_set_same key_eqb key_eqb_eq). Qed.
 Lemma kget_mutate_other {V} k k' (v : V) d : k' <> k -> kget k' (td_mutate key_eqb k v d) = kget k' d.
 Proof. intros N. unfold kget, td_mutate. cbn. apply (alist_get_set_other key_eqb key_eqb_eq). exact N. Qed.
+Lemma kget_pop_same {V} k (d : td key V) : kget k (td_pop key_eqb k d) = None.
+Proof. unfold kget, td_pop; cbn [td_items]. rewrite (alist_get_remove key_eqb key_eqb_eq), key_eqb_refl. reflexivity. Qed.
+Lemma kget_pop_other {V} k k' (d : td key V) : k' <> k -> kget k' (td_pop key_eqb k d) = kget k' d.
+Proof. intros N. unfold kget, td_pop; cbn [td_items]. rewrite (alist_get_remove key_eqb key_eqb_eq), key_eqb_neq by exact N. reflexivity. Qed.
 Lemma td_getitem_kget {V} T now k (d : td key V) :
   td_getitem key_eqb T now k d = match kget k d with Some v => Some (v, td_accessed T now k d) | None => None end.
 Proof. reflexivity. Qed.
@@ -192,7 +196,7 @@ Lemma eoi_first T now ca req rendering :
     if needs_chunking req rendering
     then (td_setitem key_eqb T now k rendering ca, [req],
           extract_block rendering 0 (match m_block2 req with Some b2 => b_szx b2 | None => m_mbse req end) (m_mps req))
-    else (ca, [req], ROk rendering).
+    else (td_pop key_eqb k ca, [req], ROk rendering).
 Proof.
   intros Hb k. unfold extract_or_insert, needs_chunking. destruct (m_block2 req) as [b2|] eqn:E.
   - rewrite Hb. cbn [Z.eqb]. fold k. destruct ((blen (p_payload rendering) >? m_mps req) || ((blen (p_payload rendering) >? b_size b2) || negb true)); reflexivity.
@@ -367,16 +371,42 @@ Qed.
 (* ------------------------------------------------------------------------------------------
    reference for the cache: the rendering stored by the latest block-0 request that was chunked *)
 Definition grend := key -> option resp.
+Definition gclr {A} (g : key -> option A) (k : key) : key -> option A :=
+  fun k' => if key_eqb k' k then None else g k'.
+Lemma gclr_same {A} (g : key -> option A) k : gclr g k k = None.
+Proof. unfold gclr. rewrite key_eqb_refl. reflexivity. Qed.
+Lemma gclr_other {A} (g : key -> option A) k k' : k' <> k -> gclr g k k' = g k'.
+Proof. intros N. unfold gclr. rewrite key_eqb_neq by exact N. reflexivity. Qed.
+(* is this a request that makes the handler render (block 0 or no Block2)? *)
+Definition is_first (req1 : msg) : bool := match m_block2 req1 with Some b2 => b_num b2 =? 0 | None => true end.
+(* stored rendering: that of the latest rendering request of the key if it needed chunking, none if it was answered whole *)
 Definition ghost2_step (g : grend) (req1 : msg) (rendering : resp) : grend :=
-  match m_block2 req1 with
-  | Some b2 => if b_num b2 =? 0 then (if needs_chunking req1 rendering then gset g (extract_block_key req1) rendering else g) else g
-  | None => if needs_chunking req1 rendering then gset g (extract_block_key req1) rendering else g
-  end.
+  if is_first req1
+  then (if needs_chunking req1 rendering then gset g (extract_block_key req1) rendering else gclr g (extract_block_key req1))
+  else g.
+(* the rendering made for the latest rendering (block-0 / Block2-less) request of each key, whether stored or not *)
+Definition glatest_step (g : grend) (req1 : msg) (rendering : resp) : grend :=
+  if is_first req1 then gset g (extract_block_key req1) rendering else g.
+Definition stored_is_latest (g gl : grend) : Prop := forall k R, g k = Some R -> gl k = Some R.
+Lemma stored_is_latest_step g gl req1 rendering :
+  stored_is_latest g gl -> stored_is_latest (ghost2_step g req1 rendering) (glatest_step gl req1 rendering).
+Proof.
+  intros H k R. unfold ghost2_step, glatest_step. destruct (is_first req1); [|apply H].
+  destruct (key_dec k (extract_block_key req1)) as [->|N].
+  - rewrite gset_same. destruct (needs_chunking req1 rendering); [rewrite gset_same; auto|rewrite gclr_same; discriminate].
+  - rewrite gset_other by exact N. destruct (needs_chunking req1 rendering); [rewrite gset_other by exact N|rewrite gclr_other by exact N]; apply H.
+Qed.
 Definition cache_inv (g : grend) (ca : cache) : Prop := forall k R, kget k ca = Some R -> g k = Some R.
 Lemma cache_inv_empty g : cache_inv g td_empty.
 Proof. intros k m H. discriminate. Qed.
 Lemma cache_inv_advance g T target ca : cache_inv g ca -> cache_inv g (td_advance key_eqb T target ca).
 Proof. intros I k m H. apply kget_advance in H. exact (I k m H). Qed.
+
+Lemma cache_inv_pop g ca k : cache_inv g ca -> cache_inv (gclr g k) (td_pop key_eqb k ca).
+Proof.
+  intros I k' R H. destruct (key_dec k' k) as [->|N]; [rewrite kget_pop_same in H; discriminate|].
+  rewrite kget_pop_other in H by exact N. rewrite gclr_other by exact N. exact (I k' R H).
+Qed.
 
 (* the answer to a request that reaches the Block2 stage, in terms of the reference rendering *)
 Definition block2_ok (g : grend) (req1 : msg) (rendering : resp) (calls : list msg) (res : R resp) : Prop :=
@@ -402,14 +432,14 @@ Proof.
   destruct (m_block2 req1) as [b2|] eqn:Hb.
   - destruct (Z.eq_dec (b_num b2) 0) as [Hn|Hn].
     + pose proof (eoi_first T now ca req1 rendering) as E. rewrite Hb in E. specialize (E Hn). cbn zeta in E. fold k in E.
-      rewrite E. unfold ghost2_step, block2_ok. rewrite Hb, Hn. cbn [Z.eqb]. fold k.
+      rewrite E. unfold ghost2_step, is_first, block2_ok. rewrite Hb, Hn. cbn [Z.eqb]. fold k.
       destruct (needs_chunking req1 rendering).
       * split; [|split; reflexivity]. intros k' Rn H. destruct (key_dec k' k) as [->|N].
         -- rewrite kget_setitem_same in H. rewrite gset_same. exact H.
         -- rewrite kget_setitem_other in H by exact N. rewrite gset_other by exact N. exact (I k' Rn H).
-      * split; [exact I|split; reflexivity].
+      * split; [apply cache_inv_pop; exact I|split; reflexivity].
     + pose proof (eoi_later T now ca req1 b2 rendering Hb Hn) as E. cbn zeta in E. fold k in E.
-      unfold ghost2_step, block2_ok. rewrite Hb. replace (b_num b2 =? 0) with false by lia. fold k.
+      unfold ghost2_step, is_first, block2_ok. rewrite Hb. replace (b_num b2 =? 0) with false by lia. fold k.
       destruct (kget k ca) as [Rn|] eqn:Hg.
       * rewrite E. split.
         -- intros k' R' H. destruct (key_dec k' k) as [->|N].
@@ -418,12 +448,12 @@ Proof.
         -- split; [reflexivity|]. right. exists Rn. split; [exact (I k Rn Hg)|reflexivity].
       * rewrite E. split; [exact I|]. split; [reflexivity|]. left. reflexivity.
   - pose proof (eoi_first T now ca req1 rendering) as E. rewrite Hb in E. specialize (E Logic.I). cbn zeta in E. fold k in E.
-    rewrite E. unfold ghost2_step, block2_ok. rewrite Hb. fold k.
+    rewrite E. unfold ghost2_step, is_first, block2_ok. rewrite Hb. fold k.
     destruct (needs_chunking req1 rendering).
     * split; [|split; reflexivity]. intros k' Rn H. destruct (key_dec k' k) as [->|N].
       -- rewrite kget_setitem_same in H. rewrite gset_same. exact H.
       -- rewrite kget_setitem_other in H by exact N. rewrite gset_other by exact N. exact (I k' Rn H).
-    * split; [exact I|split; reflexivity].
+    * split; [apply cache_inv_pop; exact I|split; reflexivity].
 Qed.
 
 (* ------------------------------------------------------------------------------------------
@@ -438,6 +468,18 @@ Definition grend_step (T now : Z) (gr : grend) (sp : spool) (req : msg) (renderi
   | (_, ROk req1) => ghost2_step gr req1 rendering
   | (_, RRaise _) => gr
   end.
+
+Definition glatest_stage (T now : Z) (gl : grend) (sp : spool) (req : msg) (rendering : resp) : grend :=
+  match feed_and_take T now sp req with
+  | (_, ROk req1) => glatest_step gl req1 rendering
+  | (_, RRaise _) => gl
+  end.
+Lemma stored_is_latest_stage T now gr gl sp req rendering : stored_is_latest gr gl ->
+  stored_is_latest (grend_step T now gr sp req rendering) (glatest_stage T now gl sp req rendering).
+Proof.
+  intros H. unfold grend_step, glatest_stage. destruct (feed_and_take T now sp req) as [sp' [req1|e]]; [|exact H].
+  apply stored_is_latest_step. exact H.
+Qed.
 
 Lemma render_to_pipe_inv T now ga gr s req rendering :
   wf_req req -> spool_inv ga (block1 s) -> cache_inv gr (block2 s) ->
@@ -502,8 +544,8 @@ Qed.
 
 (* ------------------------------------------------------------------------------------------
    the whole server: every event history *)
-Record ghost := { g_asm : nat -> gasm; g_rend : nat -> grend }.
-Definition ghost_init : ghost := {| g_asm := fun _ _ => None; g_rend := fun _ _ => None |}.
+Record ghost := { g_asm : nat -> gasm; g_rend : nat -> grend; g_latest : nat -> grend }.
+Definition ghost_init : ghost := {| g_asm := fun _ _ => None; g_rend := fun _ _ => None; g_latest := fun _ _ => None |}.
 Definition fset {A} (f : nat -> A) (i : nat) (v : A) : nat -> A := fun j => if Nat.eqb j i then v else f j.
 Definition step_ghost (T : Z) (sv : server) (gh : ghost) (e : event) : ghost :=
   match e with
@@ -511,12 +553,13 @@ Definition step_ghost (T : Z) (sv : server) (gh : ghost) (e : event) : ghost :=
   | Request i req rendering =>
     let s := nth i (resources sv) rstate_empty in
     {| g_asm := fset (g_asm gh) i (ghost1_step (g_asm gh i) req);
-       g_rend := fset (g_rend gh) i (grend_step T (now sv) (g_rend gh i) (block1 s) req rendering) |}
+       g_rend := fset (g_rend gh) i (grend_step T (now sv) (g_rend gh i) (block1 s) req rendering);
+       g_latest := fset (g_latest gh) i (glatest_stage T (now sv) (g_latest gh i) (block1 s) req rendering) |}
   end.
 Definition server_inv (gh : ghost) (sv : server) : Prop :=
   forall i, spool_inv (g_asm gh i) (block1 (nth i (resources sv) rstate_empty)) /\
             cache_inv (g_rend gh i) (block2 (nth i (resources sv) rstate_empty)) /\
-            gasm_wf (g_asm gh i).
+            gasm_wf (g_asm gh i) /\ stored_is_latest (g_rend gh i) (g_latest gh i).
 Definition wf_event (e : event) : Prop := match e with Request _ req _ => wf_req req | Advance _ => True end.
 Definition out_ok (T : Z) (sv : server) (gh : ghost) (e : event) (o : output) : Prop :=
   match e, o with
@@ -553,30 +596,30 @@ Proof.
   intros i. cbn.
   assert (E : nth i (repeat rstate_empty n) rstate_empty = rstate_empty).
   { revert i; induction n as [|n IH]; intros [|i]; cbn; auto. }
-  rewrite E. split; [apply spool_inv_empty|]. split; [apply cache_inv_empty|]. intros k bs H; discriminate.
+  rewrite E. split; [apply spool_inv_empty|]. split; [apply cache_inv_empty|]. split; intros k bs H; discriminate.
 Qed.
 
 Lemma step_inv T sv gh e : wf_event e -> server_inv gh sv ->
   server_inv (step_ghost T sv gh e) (fst (step T sv e)) /\ out_ok T sv gh e (snd (step T sv e)).
 Proof.
   intros We I. destruct e as [i req rendering|dt].
-  - cbn [wf_event] in We. destruct (I i) as (I1 & I2 & I3).
+  - cbn [wf_event] in We. destruct (I i) as (I1 & I2 & I3 & I4).
     pose proof (render_to_pipe_inv T (now sv) (g_asm gh i) (g_rend gh i) (nth i (resources sv) rstate_empty) req rendering We I1 I2) as Rp.
     cbn [step]. destruct (render_to_pipe T (now sv) (nth i (resources sv) rstate_empty) req rendering) as [[s' calls] res].
     destruct Rp as (R1 & R2 & R3). cbn [fst snd]. split.
-    + intros j. cbn [resources step_ghost g_asm g_rend]. rewrite nth_set_nth.
+    + intros j. cbn [resources step_ghost g_asm g_rend g_latest]. rewrite nth_set_nth.
       destruct (Nat.eqb j i) eqn:Eji.
       * apply Nat.eqb_eq in Eji; subst j. rewrite !fset_same. cbn [andb].
         destruct (i <? length (resources sv))%nat eqn:Lt.
-        -- split; [exact R1|]. split; [exact R2|]. apply ghost1_step_wf. exact I3.
+        -- split; [exact R1|]. split; [exact R2|]. split; [apply ghost1_step_wf; exact I3|apply stored_is_latest_stage; exact I4].
         -- assert (E0 : nth i (resources sv) rstate_empty = rstate_empty) by (apply nth_overflow; apply Nat.ltb_ge; exact Lt).
-           rewrite E0. split; [apply spool_inv_empty|]. split; [apply cache_inv_empty|]. apply ghost1_step_wf. exact I3.
+           rewrite E0. split; [apply spool_inv_empty|]. split; [apply cache_inv_empty|]. split; [apply ghost1_step_wf; exact I3|apply stored_is_latest_stage; exact I4].
       * cbn [andb]. assert (N : j <> i) by (intros ->; rewrite Nat.eqb_refl in Eji; discriminate).
         rewrite !fset_other by exact N. exact (I j).
     + cbn [out_ok step_ghost g_asm]. rewrite fset_same. split; [exact R3|]. apply ghost1_step_wf. exact I3.
   - cbn [step fst snd step_ghost out_ok]. split; [|exact Logic.I]. intros j. cbn [resources].
-    rewrite nth_map_default by reflexivity. destruct (I j) as (I1 & I2 & I3). unfold rstate_advance; cbn [block1 block2].
-    split; [apply spool_inv_advance; exact I1|]. split; [apply cache_inv_advance; exact I2|exact I3].
+    rewrite nth_map_default by reflexivity. destruct (I j) as (I1 & I2 & I3 & I4). unfold rstate_advance; cbn [block1 block2].
+    split; [apply spool_inv_advance; exact I1|]. split; [apply cache_inv_advance; exact I2|split; [exact I3|exact I4]].
 Qed.
 
 Theorem run_refines T es : forall sv gh, Forall wf_event es -> server_inv gh sv -> run_ok T sv gh es (snd (run T sv es)).
@@ -716,6 +759,25 @@ Proof.
   - cbn [block1 block2 error_to_message]. split; [reflexivity|]. split; [reflexivity|]. split; [reflexivity|destruct s; reflexivity].
 Qed.
 
+(* a later block is answered 4.08 or from the rendering made for the LATEST rendering request of its key *)
+Lemma block2_latest_rendering_lemma T now gr gl s req rendering b2 :
+  m_block1 req = None -> m_block2 req = Some b2 -> b_num b2 <> 0 -> cache_inv gr (block2 s) -> stored_is_latest gr gl ->
+  let k := extract_block_key req in
+  let '(s', calls, res) := render_to_pipe T now s req rendering in
+  calls = [] /\
+  (res = incomplete_resp \/
+   exists Rn, gl k = Some Rn /\
+     res = if b2_start (b_szx b2) (b_num b2) >=? blen (p_payload Rn) then bad_request_resp txt_out_of_bounds
+           else slice_resp Rn (b_num b2) (b_szx b2) (m_mps req)).
+Proof.
+  intros H1 H2 Hn I L k.
+  pose proof (block2_exact_slice_lemma T now gr s req rendering b2 H1 H2 Hn I) as E. cbn zeta in E. fold k in E.
+  destruct (render_to_pipe T now s req rendering) as [[s' calls] res]. destruct E as (Ec & _ & E).
+  split; [exact Ec|]. destruct (kget k (block2 s)) as [Rn|].
+  - destruct E as (G & _ & Er). right. exists Rn. split; [exact (L k Rn G)|exact Er].
+  - destruct E as (Er & _). left. exact Er.
+Qed.
+
 Lemma b2_start_0 szx : b2_start szx 0 = 0.
 Proof. unfold b2_start. destruct (szx =? 7); lia. Qed.
 Lemma block2_first_block_lemma T now s req rendering :
@@ -728,7 +790,7 @@ Lemma block2_first_block_lemma T now s req rendering :
   then kget k (block2 s') = Some rendering /\
        res = if 0 >=? blen (p_payload rendering) then bad_request_resp txt_out_of_bounds
              else slice_resp rendering 0 szx (m_mps req)
-  else res = set_block1 rendering None /\ block2 s' = block2 s.
+  else res = set_block1 rendering None /\ block2 s' = td_pop key_eqb k (block2 s).
 Proof.
   intros H1 H2 k szx. unfold render_to_pipe. rewrite (fat_none T now (block1 s) req H1).
   pose proof (eoi_first T now (block2 s) req rendering H2) as E. cbn zeta in E. fold k szx in E. rewrite E.
@@ -745,11 +807,12 @@ Qed.
 Lemma ghost2_step_P (P : resp -> Prop) g req1 rendering :
   (forall k R, g k = Some R -> P R) -> P rendering -> forall k R, ghost2_step g req1 rendering k = Some R -> P R.
 Proof.
-  intros Hg Hr k R. unfold ghost2_step.
-  assert (Hs : gset g (extract_block_key req1) rendering k = Some R -> P R).
-  { destruct (key_dec k (extract_block_key req1)) as [->|N]; [rewrite gset_same; intros [= <-]; exact Hr|rewrite gset_other by exact N; apply Hg]. }
-  destruct (m_block2 req1) as [b2|]; [destruct (b_num b2 =? 0)|]; try destruct (needs_chunking req1 rendering);
-    first [exact Hs | apply Hg].
+  intros Hg Hr k R. unfold ghost2_step. destruct (is_first req1); [|apply Hg].
+  destruct (key_dec k (extract_block_key req1)) as [->|N]; destruct (needs_chunking req1 rendering).
+  - rewrite gset_same; intros [= <-]; exact Hr.
+  - rewrite gclr_same; discriminate.
+  - rewrite gset_other by exact N; apply Hg.
+  - rewrite gclr_other by exact N; apply Hg.
 Qed.
 Definition rend_codes_ok (gh : ghost) : Prop := forall i k R, g_rend gh i k = Some R -> p_code R <> INTERNAL_SERVER_ERROR.
 Definition ev_code_ok (e : event) : Prop := match e with Request _ _ r => p_code r <> INTERNAL_SERVER_ERROR | Advance _ => True end.
@@ -772,3 +835,7 @@ Proof.
   cbn [out_code_ok]. intros Hc. destruct O as [O _].
   destruct (resp_ok_no_5xx _ _ _ _ _ _ O Hc) as [H|(k & Rn & G & H)]; [exact (Ce H)|exact (Rc i k Rn G H)].
 Qed.
+
+Lemma reachable_stored_is_latest T sv gh : reachable T sv gh ->
+  forall i, cache_inv (g_rend gh i) (block2 (nth i (resources sv) rstate_empty)) /\ stored_is_latest (g_rend gh i) (g_latest gh i).
+Proof. intros H i. destruct (reachable_inv T sv gh H i) as (_ & I2 & _ & I4). split; assumption. Qed.
